@@ -1,150 +1,2 @@
-// Prelude of unit `nuts` (model R). Contracts here are ASSUMPTIONS of this unit; the Hamiltonian
-// contract is proved for TransformedHamiltonian in unit `leapfrog` against the same text
-// (units/_shared/hamiltonian_contract.md lists the correspondence).
-use core::marker::PhantomData;
-use core::fmt::Debug;
-
-pub struct BoxedErr { pub code: u64 }
-pub enum NutsError { LogpFailure(BoxedErr), SerializeFailure(), BadInitGrad(BoxedErr) }
-pub struct DivergenceInfo { pub code: u64 }
-
-pub trait LogpError: Sized {
-    spec fn recoverable(&self) -> bool;
-    fn is_recoverable(&self) -> (r: bool) ensures r == self.recoverable();
-}
-pub trait Math: Sized {
-    type LogpErr: LogpError + Into<BoxedErr>;   // `err.into()` boxes the error (Box<dyn Error> in /repo)
-    spec fn dim_spec(&self) -> nat;
-    fn dim(&self) -> (r: usize) ensures r as nat == self.dim_spec();
-}
-
-/// ghost view of a phase-space state: index in the trajectory, total energy, energy at the start
-/// of the trajectory, and `content` standing for (position, gradient, velocity, logp)
-pub struct StateView { pub idx: int, pub energy: real, pub e0: real, pub content: int }
-
-pub trait Point<M: Math>: Sized {
-    spec fn pview(&self) -> StateView;
-    fn initial_energy(&self) -> (r: F) ensures r.r() == self.pview().e0;
-    fn energy_error(&self) -> (r: F) ensures r.r() == self.pview().energy - self.pview().e0;
-}
-
-#[verifier::external_body]
-#[verifier::reject_recursive_types(M)]
-#[verifier::reject_recursive_types(P)]
-pub struct State<M: Math, P: Point<M>> { _m: PhantomData<M>, _p: PhantomData<P> }
-impl<M: Math, P: Point<M>> State<M, P> {
-    pub uninterp spec fn view(&self) -> StateView;
-    #[verifier::external_body]
-    pub fn point(&self) -> (r: &P) ensures r.pview() == self.view() { unimplemented!() }
-    #[verifier::external_body]
-    pub fn index_in_trajectory(&self) -> (r: i64) ensures r as int == self.view().idx { unimplemented!() }
-}
-impl<M: Math, P: Point<M>> Clone for State<M, P> {
-    #[verifier::external_body]
-    fn clone(&self) -> (r: Self) ensures r.view() == self.view() { unimplemented!() }
-}
-
-// ---- rand façade with a ghost event log (A-rng-fair: Coin(b) is a fair coin, Bern(p,b) is true w.p. p)
-pub enum RngEv { Coin(bool), Bern(real, bool), Momentum }
-/// specification half of rand's `Distribution<T> for StandardUniform` (split off to avoid a trait cycle)
-pub trait DistSpec<T> {
-    spec fn sample_post(l0: Seq<RngEv>, l1: Seq<RngEv>, r: T) -> bool;
-}
-pub trait Rng {
-    spec fn log(&self) -> Seq<RngEv>;
-    fn random_bool(&mut self, p: F) -> (b: bool)
-        ensures final(self).log() == old(self).log().push(RngEv::Bern(p.r(), b));
-    /// rand: `rng.random::<T>()` is `StandardUniform.sample(rng)`
-    fn random<T>(&mut self) -> (r: T) where StandardUniform: DistSpec<T>
-        ensures <StandardUniform as DistSpec<T>>::sample_post(old(self).log(), final(self).log(), r);
-}
-pub mod rand { pub use super::Rng; }
-pub struct StandardUniform {}
-pub trait Distribution<T>: DistSpec<T> {
-    fn sample<R: Rng + ?Sized>(&self, rng: &mut R) -> (r: T)
-        ensures Self::sample_post(old(rng).log(), final(rng).log(), r);
-}
-impl DistSpec<bool> for StandardUniform {
-    open spec fn sample_post(l0: Seq<RngEv>, l1: Seq<RngEv>, r: bool) -> bool { l1 == l0.push(RngEv::Coin(r)) }
-}
-impl DistSpec<Direction> for StandardUniform {
-    // [C01.6] a direction is one fair coin, mapped bijectively to {Forward, Backward}
-    open spec fn sample_post(l0: Seq<RngEv>, l1: Seq<RngEv>, r: Direction) -> bool { dir_sample_post(l0, l1, r) }
-}
-
-// ---- Collector façade: ghost bookkeeping of what the integrator did in this trajectory
-pub trait Collector<M: Math, P: Point<M>> {
-    /// number of leapfrog steps since register_init (divergent ones included)
-    spec fn leapfrogs(&self) -> nat;
-    /// states the integrator produced in this trajectory, by trajectory index
-    spec fn traj(&self) -> Map<int, StateView>;
-    /// states passed to register_draw
-    spec fn draws(&self) -> Seq<StateView>;
-    fn register_draw(&mut self, math: &mut M, state: &State<M, P>, info: &SampleInfo)
-        ensures final(self).draws() == old(self).draws().push(state.view()),
-                final(self).leapfrogs() == old(self).leapfrogs(), final(self).traj() == old(self).traj(),
-                final(math).dim_spec() == old(math).dim_spec();
-    fn register_init(&mut self, math: &mut M, state: &State<M, P>, options: &NutsOptions)
-        ensures final(self).leapfrogs() == 0,
-                final(self).traj() == Map::<int, StateView>::empty().insert(state.view().idx, state.view()),
-                final(self).draws() == old(self).draws(),
-                final(math).dim_spec() == old(math).dim_spec();
-}
-
-pub open spec fn dir_sign(d: Direction) -> int { match d { Direction::Forward => 1, Direction::Backward => -1 } }
-pub spec const IDX_BIG: int = 0x4000_0000_0000_0000;
-
-pub trait Hamiltonian<M: Math>: Sized {
-    type Point: Point<M>;
-    spec fn step(&self) -> real;
-    /// U-turn criterion between an earlier (lo) and a later (hi) state of one trajectory
-    spec fn turn_spec(&self, lo: StateView, hi: StateView) -> bool;
-
-    fn leapfrog<C: Collector<M, Self::Point>>(
-        &mut self,
-        math: &mut M,
-        start: &State<M, Self::Point>,
-        dir: Direction,
-        step_size_factor: F,
-        energy_baseline: F,
-        max_energy_error: F,
-        collector: &mut C,
-    ) -> (r: LeapfrogResult<M, Self::Point>)
-        requires -IDX_BIG < start.view().idx < IDX_BIG
-        ensures
-            final(self).step() == old(self).step(),
-            forall|a: StateView, b: StateView| final(self).turn_spec(a, b) == old(self).turn_spec(a, b),
-            final(math).dim_spec() == old(math).dim_spec(),
-            final(collector).leapfrogs() == old(collector).leapfrogs() + 1,
-            final(collector).draws() == old(collector).draws(),
-            match r {
-                LeapfrogResult::Ok(out) => {
-                    &&& out.view().idx == start.view().idx + dir_sign(dir)
-                    &&& out.view().e0 == start.view().e0
-                    &&& final(collector).traj() == old(collector).traj().insert(out.view().idx, out.view())
-                },
-                LeapfrogResult::Divergence(_) => final(collector).traj() == old(collector).traj(),
-                LeapfrogResult::Err(e) => final(collector).traj() == old(collector).traj() && !e.recoverable(),
-            };
-
-    fn is_turning(&self, math: &mut M, state1: &State<M, Self::Point>, state2: &State<M, Self::Point>) -> (r: bool)
-        ensures
-            final(math).dim_spec() == old(math).dim_spec(),
-            r == (if state1.view().idx <= state2.view().idx { self.turn_spec(state1.view(), state2.view()) }
-                  else { self.turn_spec(state2.view(), state1.view()) });
-
-    fn initialize_trajectory<R: Rng + ?Sized>(
-        &self,
-        math: &mut M,
-        state: &mut State<M, Self::Point>,
-        resaple_velocity: bool,
-        rng: &mut R,
-    ) -> (r: core::result::Result<(), NutsError>)
-        ensures
-            final(math).dim_spec() == old(math).dim_spec(),
-            r is Ok ==> final(state).view().idx == 0 && final(state).view().e0 == final(state).view().energy,
-            resaple_velocity ==> final(rng).log() == old(rng).log().push(RngEv::Momentum),
-            !resaple_velocity ==> final(rng).log() == old(rng).log();
-
-    fn step_size(&self) -> (r: F) ensures r.r() == self.step();
-}
+// Prelude of unit `nuts`: the shared dynamics façade (Math, Point, State, Rng, Collector, Hamiltonian).
+//@include ../_shared/dyn_facade.rs
